@@ -177,3 +177,132 @@ func c19KindMatchesForm(p *Prog) *RuleResult {
 	r.Floor(5)
 	return r
 }
+
+// ---------------------------------------------------------------------------------------------
+// C19/R8 exports-list-from-emitted-aliases.
+//
+// The export clause of an entry point is generated from JSReprMeta.SortedAndFilteredExportAliases,
+// which omits names that two `export *` make ambiguous and re-exports that are probably TypeScript
+// types. The metafile's "exports" must list what the file exports, so it has to be enumerated from
+// that list too — not from ResolvedExports, the unfiltered map.
+func c19ExportsFromEmittedAliases(p *Prog) *RuleResult {
+	r := NewRule("C19/R8 exports-list-from-emitted-aliases", "the metafile's exports of an entry point are enumerated from the filtered alias list the export clause is generated from, not from the unfiltered map of resolved exports")
+	var host *ssa.Function
+	for _, fn := range p.ModuleFuncs() {
+		if pkgPathOf(fn) != modPath+"/internal/linker" {
+			continue
+		}
+		eachInstr(fn, func(b *ssa.BasicBlock, in ssa.Instruction) {
+			c, ok := in.(*ssa.Call)
+			if !ok {
+				return
+			}
+			for _, a := range c.Call.Args {
+				if s, ok := constString(a); ok && strings.Contains(s, "\"exports\": [") && TopFunc(fn).Name() == "generateChunkJS" {
+					host = fn
+				}
+			}
+		})
+	}
+	if !r.Anchor("the function that writes the exports list of a JavaScript chunk's metafile entry", host != nil) {
+		return r
+	}
+	readsFiltered, rangesResolved := false, ""
+	eachInstr(host, func(b *ssa.BasicBlock, in ssa.Instruction) {
+		switch x := in.(type) {
+		case *ssa.FieldAddr:
+			if fieldAddrName(x) == "SortedAndFilteredExportAliases" {
+				readsFiltered = true
+			}
+		case *ssa.Range:
+			if _, n, ok := loadedField(x.X); ok && n == "ResolvedExports" {
+				rangesResolved = p.Pos(x.Pos())
+			}
+		}
+	})
+	r.Instances += 2
+	if readsFiltered {
+		r.OK("generateChunkJS reads SortedAndFilteredExportAliases", true, "the list the export clause is generated from")
+	} else {
+		r.Fail("generateChunkJS reads SortedAndFilteredExportAliases", p.Pos(host.Pos()), "the metafile writer does not read the filtered alias list the export clause is generated from")
+	}
+	if rangesResolved == "" {
+		r.OK("generateChunkJS does not enumerate ResolvedExports", true, "")
+	} else {
+		r.Fail("generateChunkJS does not enumerate ResolvedExports", rangesResolved, "the metafile's exports are enumerated from the unfiltered map of resolved exports: names that two `export *` make ambiguous, and re-exports that are probably TypeScript types, are listed although the emitted file does not export them")
+	}
+	r.Floor(2)
+	return r
+}
+
+// ---------------------------------------------------------------------------------------------
+// C19/R9 substituted-paths-json-escaped.
+//
+// The metafile text of a chunk is generated before final paths are known: references to other
+// chunks are written as unique keys inside JSON strings and replaced by the final path afterwards
+// (substituteFinalPaths with a callback that maps a final relative path to the text to insert). The
+// key was quoted for JSON; the replacement text is inserted between the same quotes and must be
+// escaped for JSON too, or a path containing `"` or `\` makes the metafile unparsable.
+func c19SubstitutedPathsEscaped(p *Prog) *RuleResult {
+	r := NewRule("C19/R9 substituted-paths-json-escaped", "the text substituted for a chunk's unique key inside the JSON metadata is escaped for JSON")
+	n := 0
+	for _, fn := range p.ModuleFuncs() {
+		if pkgPathOf(fn) != modPath+"/internal/linker" {
+			continue
+		}
+		eachInstr(fn, func(b *ssa.BasicBlock, in ssa.Instruction) {
+			c, ok := in.(*ssa.Call)
+			if !ok || !strings.HasSuffix(calleeFullName(c), "linkerContext).substituteFinalPaths") {
+				return
+			}
+			for _, a := range c.Call.Args {
+				mc, ok := a.(*ssa.MakeClosure)
+				if !ok {
+					continue
+				}
+				cb := mc.Fn.(*ssa.Function)
+				isMeta := false
+				eachInstr(cb, func(b2 *ssa.BasicBlock, in2 ssa.Instruction) {
+					if fa, ok := in2.(*ssa.FieldAddr); ok && fieldAddrName(fa) == "MetafilePathStyle" {
+						isMeta = true
+					}
+				})
+				if !isMeta {
+					continue
+				}
+				n++
+				r.Instances++
+				key := fmt.Sprintf("%s metafile path substitution #%d", FuncName(fn), n)
+				bad := ""
+				for _, cbk := range cb.Blocks {
+					if !isReturnBlock(cbk) {
+						continue
+					}
+					ret := cbk.Instrs[len(cbk.Instrs)-1].(*ssa.Return)
+					escaped := false
+					for _, res := range ret.Results {
+						backSlice(res, func(v ssa.Value) bool {
+							if call, ok := v.(*ssa.Call); ok && strings.HasSuffix(calleeFullName(call), "helpers.QuoteForJSON") {
+								escaped = true
+							}
+							return true
+						})
+					}
+					if !escaped {
+						bad = p.Pos(ret.Pos())
+					}
+				}
+				if bad == "" {
+					r.OK(key, true, "every return of the callback derives from helpers.QuoteForJSON")
+				} else {
+					r.Fail(key, bad, "the final path is inserted into the JSON metadata as it is: a path containing `\"` or `\\` (both legal in directory names) makes the metafile invalid JSON")
+				}
+			}
+		})
+	}
+	if !r.Anchor("path substitution callbacks for the JSON metadata", n >= 1) {
+		return r
+	}
+	r.Floor(1)
+	return r
+}
